@@ -71,8 +71,8 @@ CLAIMED = {
   note="Trusted: get_input/Data/output actions are recording stubs here (their behaviour: C01-C12); arange/round models (validated). Outside: IEEE rounding of decimal grids, arbitrary-character argument strings (malformed syntax is decided on a fixed list of shapes), the effect of options on rendered plots (C17).",
   ref="3 C13"),
  "C16": dict(
-  text="Partial. Bounded model checking of Output.plot/_plot_core for the standard line plot (location/time/no), obsfcst (with and without quantile lines), qq (plain and with -x/-q), sort, hist, freq, scatter, error, change, cond, marginal, reliability, discrimination, roc, droc0, pithist and timeseries, and of the binning helper util.bin, on a real Data object with symbolic cells, observed at the matplotlib.pyplot boundary: one series per input in command-line order, each point = the defining statistic of its slice over the common valid cases, sorted values / percentiles, bin heights, every value in exactly one bin.",
-  note="NOT decided: the other 10 diagrams, maps, rank and impact views, and whether matplotlib draws what it is given. pyplot is a recording stub in both the symbolic run and the replay.",
+  text="Partial. Bounded model checking of Output.plot/_plot_core for the standard line plot (location/time/no), obsfcst (with and without quantile lines), qq (plain and with -x/-q), sort, hist, freq, scatter, error, change, cond, marginal, reliability, discrimination, roc, droc0, pithist, timeseries, invreliability, spreadskill, against, bsdecomp, igncontrib, economicvalue, murphy, droc, meteo and autocov/autocorr (-simple), and of the binning helper util.bin, on a real Data object with symbolic cells, observed at the matplotlib.pyplot boundary: one series per input in command-line order, each point = the defining statistic of its slice over the common valid cases, sorted values / percentiles, bin heights, every value in exactly one bin.",
+  note="NOT decided: performance, taylor, fss, the smoothing lines of autocorr/autocov, maps, rank and impact views, and whether matplotlib draws what it is given. pyplot is a recording stub in both the symbolic run and the replay.",
   ref="3 C16"),
  "C17": dict(
   text="Partial. Bounded model checking of the dataflow of 45 appearance options from argv through verif.driver.run, the output object's attributes and Output.plot/_adjust_axis/_legend/_save_plot/_get_plot_options/_add_annotation to the documented matplotlib call: the option's symbolic value arrives as the documented argument (set_rotation, grid(lw=), set_title(fontsize=), savefig(dpi=), set_size_inches, subplots_adjust, plot(color/ls/lw/marker/ms), legend(loc/prop), text(fontsize) ...); limits combined with ticks are applied in the order that keeps the limits; thorough: all ordered pairs of 9 options keep both effects. The margin options are followed to the savefig call (no bbox_inches='tight' when a margin is given).",
